@@ -63,7 +63,8 @@ def run(eng, R):
     _check_numerical(eng, R, get_func(p, M, "_bin_evaluation_numerical"))
     f = get_func(p, M, "eval_model_function_density")
     src = common.src_of(f.node)
-    R.ob("H-geom", "%s.eval_model_function_density" % M, "model_parameters if model_parameters is not None else self._model_parameters" in src and "self._model_function_object(x, *_pars)" in src,
+    PARS = "self._model_parameters if model_parameters is None else model_parameters"
+    R.ob("H-geom", "%s.eval_model_function_density" % M, common.like_any(src, "self._model_function_object(x, *(%s))" % PARS, ["_p = " + PARS, "self._model_function_object(x, *_p)"]),
          (f.file, f.lineno), "the density must be evaluated at the given parameters, by default the model's current ones")
 
     # ---- selection table
@@ -264,10 +265,12 @@ def _selection_table(p, ini):
         if not (isinstance(n, ast.Assign) and any(self_attr(t) == "_bin_evaluation_method" for t in n.targets)):
             continue
         if self_attr(n.value):
+            from ..canon import negate
             for cnd, pol in common.guard_conditions(ini.node, n):
-                if pol:
-                    for k in keys_of(cnd, lambda e: self_attr(e) == "_bin_evaluation"):
-                        sel[k] = n.value.attr
+                if not pol:
+                    cnd = negate(cnd)   # reached because `x != 'name'` failed (flat form: `if x != 'name': raise` before the assignment)
+                for k in keys_of(cnd, lambda e: self_attr(e) == "_bin_evaluation"):
+                    sel[k] = n.value.attr
         elif isinstance(n.value, ast.Call) and isinstance(n.value.func, ast.Attribute) and is_self(n.value.func.value) and n.value.args and self_attr(n.value.args[0]) == "_bin_evaluation":
             h = ini.cls.find_method(n.value.func.attr)
             if h is None:
